@@ -1,9 +1,11 @@
 (* C17 — route resolution: exact, else longest directory prefix; URL joined
    with exactly one '/'; independent of Go's map iteration order; the table is
-   a finite map under save/delete histories.  Statements only; proofs are in
-   Proofs/RouteProofs.v. *)
+   a finite map under save/delete histories; media.GetOrCreate publishes the
+   pulled stream under the canonical requested path (second half of the file).
+   Statements only; proofs are in Proofs/RouteProofs.v and
+   Proofs/C17PublishProofs.v. *)
 From Coq Require Import ZArith List Bool Permutation.
-From V Require Import Bytes StrGo Route RouteProofs.
+From V Require Import Bytes StrGo Route RouteProofs C17Publish C17PublishProofs.
 Import ListNotations.
 
 (* the implementation's lookup (loop over the map in any order) equals the specification *)
@@ -63,4 +65,131 @@ Example C17_nonvacuous :
   uniq_keys t = true /\ urls_nonempty t = true /\
   match_go t [47;65;47;98;47;99] =
     Found {| r_pat := [47;97;47;98;47;99]; r_url := [115;47;99]; r_keep := true |}.
+Proof. vm_compute. auto. Qed.
+
+(* ======================================================================
+   "... and the pulled stream is published under the requested path":
+   media.GetOrCreate over (registry of live streams, route table, list of pull
+   factories).  Guard [req_stable]: CanonicalPath(request) is a fixed point of
+   CanonicalPath (false only for a blank-edged segment in front of "..";
+   known finding, witness below).
+   ====================================================================== *)
+
+(* the code (registry look-up on the canonical path, Match on the canonicalised
+   path, first factory that Can, Create(r.Pattern, r.URL)) equals the
+   specification written from the property text *)
+Theorem C17_get_or_create_is_spec : forall g t fs p,
+  uniq_keys t = true -> urls_nonempty t = true -> req_stable p = true ->
+  get_or_create g t fs p = spec_goc g t fs p.
+Proof. exact goc_is_spec. Qed.
+Print Assumptions C17_get_or_create_is_spec.
+
+(* (a) a stream registered under the canonical path is returned; nothing is created, the state is unchanged *)
+Theorem C17_registered_stream_is_returned : forall url_ok fs st p sid,
+  reg_get (ps_reg st) (canonical_path p) = Some sid ->
+  pstep url_ok fs st (PReq p) = (st, POReq (GExisting sid) (Some sid) []).
+Proof. exact fast_path_step. Qed.
+Print Assumptions C17_registered_stream_is_returned.
+
+(* (b) otherwise what is created is the route table's answer: published under the canonical
+   requested path (an exact route's pattern; a directory route's pattern followed by the remainder),
+   pulled from the route URL / the one-slash join, by the first factory that accepts that URL
+   (keep = None: that factory's Create failed, nothing is returned and no other factory is tried) *)
+Theorem C17_created_under_requested_path : forall g t fs p lp url i keep,
+  uniq_keys t = true -> urls_nonempty t = true -> req_stable p = true ->
+  created_of (get_or_create g t fs p) = Some (lp, url, i, keep) ->
+  reg_get g (canonical_path p) = None /\
+  lp = canonical_path p /\ ends_with SLASH lp = false /\
+  exists f, nth_error fs i = Some f /\ f_can f url = true /\
+    (forall j f', (j < i)%nat -> nth_error fs j = Some f' -> f_can f' url = false) /\
+    ((exists r, In r t /\ r_pat r = lp /\ url = r_url r /\
+                keep = if f_ok f lp url then Some (r_keep r) else None) \/
+     ((forall r, In r t -> r_pat r <> lp) /\
+      exists r, In r t /\ is_dir_cand lp r = true /\
+                (forall r', In r' t -> is_dir_cand lp r' = true -> (length (r_pat r') <= length (r_pat r))%nat) /\
+                lp = r_pat r ++ drop (zlen (r_pat r)) lp /\
+                url = spec_url r lp /\
+                keep = if f_ok f lp url then Some (r_keep r) else None)).
+Proof. exact created_meaning. Qed.
+Print Assumptions C17_created_under_requested_path.
+
+(* (c) spelling independence: two spellings of one canonical path get the same answer, cause the same
+   creation and leave the same state *)
+Theorem C17_spelling_independent : forall url_ok fs st p q,
+  canonical_path p = canonical_path q ->
+  pstep url_ok fs st (PReq p) = pstep url_ok fs st (PReq q).
+Proof. exact step_spelling. Qed.
+Print Assumptions C17_spelling_independent.
+
+(* (d) no lookup, request, registration or closure modifies the table: after any history the table is
+   the one its save/delete operations alone build, i.e. the finite map folded over them *)
+Theorem C17_table_untouched_by_lookups : forall url_ok fs ops st,
+  ps_tbl (fst (prun url_ok fs st ops)) = fst (rrun url_ok (ps_tbl st) (route_ops ops)).
+Proof. exact table_untouched. Qed.
+Print Assumptions C17_table_untouched_by_lookups.
+
+Theorem C17_table_is_map_of_route_ops : forall url_ok fs ops st m,
+  (forall k, abs (ps_tbl st) k = m k) ->
+  forall k, abs (ps_tbl (fst (prun url_ok fs st ops))) k = fold_left (astep url_ok) (route_ops ops) m k.
+Proof. exact table_is_map_of_route_ops. Qed.
+Print Assumptions C17_table_is_map_of_route_ops.
+
+(* (e) publish path = lookup path: after a request has created (and so registered) a stream, a request
+   for the same canonical path in any spelling returns that stream and creates nothing *)
+Theorem C17_created_stream_is_found_again : forall url_ok fs st p q lp url i keep st1 sid seen,
+  pinv st = true -> req_stable p = true ->
+  pstep url_ok fs st (PReq p) = (st1, POReq (GCreated lp url i keep) sid seen) ->
+  canonical_path q = canonical_path p ->
+  sid = Some (ps_next st) /\
+  reg_get (ps_reg st1) (canonical_path p) = Some (ps_next st) /\
+  pstep url_ok fs st1 (PReq q) = (st1, POReq (GExisting (ps_next st)) (Some (ps_next st)) []).
+Proof. exact created_then_found. Qed.
+Print Assumptions C17_created_stream_is_found_again.
+
+Theorem C17_published_stream_is_found : forall url_ok fs st p q,
+  canonical_path q = canonical_path p ->
+  let st1 := fst (pstep url_ok fs st (PPublish p)) in
+  pstep url_ok fs st1 (PReq q) = (st1, POReq (GExisting (ps_next st)) (Some (ps_next st)) []).
+Proof. exact published_then_found. Qed.
+Print Assumptions C17_published_stream_is_found.
+
+(* the decidable oracle applied to the implementation's answers accepts the model on every
+   well-formed history (route URLs non-empty, requests canon-stable), for every factory list *)
+Theorem C17_publish_model_passes : forall url_ok fs ops st,
+  forallb (pop_wf url_ok) ops = true -> pinv st = true ->
+  ok_phist url_ok fs st ops (snd (prun url_ok fs st ops)) = true.
+Proof. exact publish_model_passes. Qed.
+Print Assumptions C17_publish_model_passes.
+
+(* ... and an answer the oracle accepts for a request is the specification's answer *)
+Theorem C17_publish_oracle_sound : forall url_ok fs st p got sid seen ops outs,
+  ok_phist url_ok fs st (PReq p :: ops) (POReq got sid seen :: outs) = true ->
+  got = spec_goc (ps_reg st) (ps_tbl st) fs p.
+Proof. exact oracle_sound_request. Qed.
+Print Assumptions C17_publish_oracle_sound.
+
+(* the guard is needed (known finding): "/a /b/.." is looked up under "/a " and published under "/a",
+   so the same request pulls a second time *)
+Theorem C17_publish_unstable_refuted :
+  let st := {| ps_reg := []; ps_tbl := unstable_tbl; ps_next := 0 |} in
+  pinv st = true /\ req_stable unstable_req = false /\
+  let st1 := fst (pstep (fun _ => true) [any_factory] st (PReq unstable_req)) in
+  snd (pstep (fun _ => true) [any_factory] st (PReq unstable_req)) = POReq (GCreated [47; 97] [117] 0 true) (Some 0) [] /\
+  snd (pstep (fun _ => true) [any_factory] st1 (PReq unstable_req)) = POReq (GCreated [47; 97] [117] 0 true) (Some 1) [].
+Proof. exact publish_unstable_refuted. Qed.
+Print Assumptions C17_publish_unstable_refuted.
+
+(* non-vacuity: directory route "/cam/" -> "r/x"; factories: one that refuses everything, one that
+   accepts; the request " Cam//B" is well-formed, creates "/cam/b" from "r/x/b" with the SECOND factory
+   and an idle-close task (keep = false); the request "/cam/./b" then finds that stream *)
+Example C17_publish_nonvacuous :
+  let never := {| f_can := fun _ => false; f_ok := fun _ _ => true; f_real := false |} in
+  let st := {| ps_reg := []; ps_next := 0;
+               ps_tbl := [ {| r_pat := [47;99;97;109;47]; r_url := [114;47;120]; r_keep := false |} ] |} in
+  let ops := [PReq [32;67;97;109;47;47;66]; PReq [47;99;97;109;47;46;47;98]; PAll] in
+  forallb (pop_wf (fun _ => true)) ops = true /\ pinv st = true /\
+  snd (prun (fun _ => true) [never; any_factory] st ops) =
+    [ POReq (GCreated [47;99;97;109;47;98] [114;47;120;47;98] 1 false) (Some 0) [];
+      POReq (GExisting 0) (Some 0) [];
+      POAll (ps_tbl st) ].
 Proof. vm_compute. auto. Qed.
